@@ -17,12 +17,19 @@ RULE = ("(translator) the 16 update expressions of the current strapdown_imu.py 
         "(cse, point); non-trivial = both quaternions non-unit and all gyro/accelerometer/bias components non-zero; (reused vectors) one State "
         "and one Control object per compiled model are passed to model() repeatedly with their public .data column overwritten in place "
         "between the calls (new IMU sample into the same Control, orientation rescaled / velocity bumped in the same State, a Control() "
-        "filled through .data before its first use): every call must return the kinematics of the values the vectors hold at that call")
+        "filled through .data before its first use): every call must return the kinematics of the values the vectors hold at that call; (partly named controls) on one compiled model a "
+        "fully named IMU sample is followed by Controls built from keywords naming only a SUBSET of the entries (gyro only, accelerometer "
+        "only, one entry, none; also through from_dict), the other entries at the library's default: every call must return the kinematics "
+        "of the sample that was passed at that call, whatever the model processed before")
 NOTE = ["symbols are renamed to Lean identifiers by a fixed table; sympy Float 0.5 is translated as the exact rational 1/2",
         "every divisor in the model must be a rational multiple of |ori (x) cori|^2 - emitted as a lemma and checked by `ring`",
         "reused-vector stream: fixed dyadic samples (exact in binary64), the oracle is spec() of the vectors' contents read back through "
         ".data immediately before each call; counters reused_vector_call / control_overwritten_in_place / state_edited_in_place / "
-        "control_filled_before_first_use"]
+        "control_filled_before_first_use",
+        "partly-named-control stream: fixed dyadic samples, a fixed history per compiled model (full, gyro-only, full, accelerometer-only, "
+        "one gyro entry, one accelerometer entry, none, from_dict gyro-only after a full one); the oracle is spec() of the Control's contents "
+        "read back through .data before the call (non-finite contents are skipped and counted); counters partly_named_control_call / "
+        "control_gyro_only / control_accel_only / control_single_entry / control_no_entry / partly_named_after_full_sample"]
 PARTIAL = ["sympy's Quaternion algebra / integrate are not trusted: their output is what gets verified"]
 
 
@@ -121,6 +128,61 @@ def reused_vectors(ctx, pm, cse, sym, state_names, ctl_names, cal0):
     call("Control() filled through .data before its first use", dt, st, ct2)
     write(ct2, _U[0]); ctx.count("control_overwritten_in_place")
     call("that Control overwritten in place", dt, st, ct2)
+
+
+def partly_named_controls(ctx, pm, cse, sym, state_names, ctl_names, cal0):
+    """one compiled model, a history of Controls built from keywords naming all / some / none of the entries"""
+    import math
+    gyro = [n for n in ctl_names if n.startswith("w")]
+    accel = [n for n in ctl_names if n.startswith("f")]
+    prev_full = [False]
+
+    def call(label, dt, sample, names, counter, via_dict=False):
+        with fk.quiet():
+            st = pm.State(**{sym(n).name: float(_S0[n]) for n in state_names})
+            kw = {sym(n).name: float(sample[n]) for n in names}
+            ct = pm.Control.from_dict(kw) if via_dict else pm.Control(**kw)
+        pt = dict(cal0)
+        for vec in (st, ct):
+            for n, v in fk.by_name(vec).items():
+                pt[tr.RENAME.get(n, n)] = v
+        if not all(isinstance(v, F) or math.isfinite(v) for v in pt.values()):
+            ctx.count("partly_named_control_skipped_nonfinite"); return
+        pt = {k: F(v) for k, v in pt.items()}
+        # the entries that were named hold the values that were named
+        named_ok = all(pt[n] == sample[n] for n in names)
+        pt["dt"] = dt
+        case = {"cse": cse, "partly_named_control": label, "named": sorted(names), "via": "from_dict" if via_dict else "keywords",
+                "point": {k: core.frac_str(v) for k, v in pt.items()}}
+        ctx.case(case, True); ctx.count("partly_named_control_call"); ctx.count(counter); ctx.traces += 1
+        if prev_full[0] and len(names) < len(ctl_names):
+            ctx.count("partly_named_after_full_sample")
+        prev_full[0] = len(names) == len(ctl_names)
+        if not named_ok:
+            ctx.fail("kinematics:control-partly-named:named-entry-lost", f"{label}: the Control does not hold the values it was built with", case)
+            return
+        with fk.quiet():
+            got_raw = fk.by_name(pm.model(float(dt), st, ct))
+        got = {tr.RENAME.get(k, k): v for k, v in got_raw.items()}
+        want = spec(pt)
+        sc = max(abs(float(v)) for v in want.values())
+        bad = [k for k in want if not core.close(got.get(k, float("nan")), want[k], scale=sc)]
+        if bad:
+            kind = {"a": "acceleration", "v": "velocity", "x": "position", "o": "orientation"}.get(bad[0][0], "rates")
+            ctx.fail(f"kinematics:control-partly-named:{kind}", f"{label}: {bad[0]}: compiled model returns {got.get(bad[0])!r}, rigid-body "
+                     f"kinematics of the sample passed at this call gives {float(want[bad[0]])!r}", case)
+
+    dt = F(1, 64)
+    call("full IMU sample", dt, _U[0], ctl_names, "control_fully_named")
+    call("gyro-only sample after a full one", dt, _U[1], gyro, "control_gyro_only")
+    call("full IMU sample again", F(3, 128), _U[2], ctl_names, "control_fully_named")
+    call("accelerometer-only sample after a full one", dt, _U[3], accel, "control_accel_only")
+    call("one gyro entry named", dt, _U[0], gyro[1:2], "control_single_entry")
+    call("one accelerometer entry named", F(1, 32), _U[1], accel[2:3], "control_single_entry")
+    call("full IMU sample once more", dt, _U[3], ctl_names, "control_fully_named")
+    call("no entry named after a full sample", dt, _U[0], [], "control_no_entry")
+    call("full IMU sample, fourth", dt, _U[1], ctl_names, "control_fully_named")
+    call("gyro-only sample through from_dict after a full one", dt, _U[2], gyro, "control_gyro_only", via_dict=True)
 
 
 def run(ctx):
@@ -257,6 +319,13 @@ def run(ctx):
         except Exception as e:
             ctx.fail(f"model-call-raises:{fk.exc_kind(e)}:reused-vectors", f"compiled reference model with vectors edited in place raises {e!r}"[:300],
                      {"cse": cse, "reused_vectors": True})
+    # PARTLY NAMED CONTROLS (deterministic, no ctx.rng): gyro-only / accelerometer-only samples between full ones on the same compiled model
+    for cse, pm in compiled:
+        try:
+            partly_named_controls(ctx, pm, cse, sym, state_names, ctl_names, cal0)
+        except Exception as e:
+            ctx.fail(f"model-call-raises:{fk.exc_kind(e)}:partly-named-controls", f"compiled reference model with a partly named Control raises {e!r}"[:300],
+                     {"cse": cse, "partly_named_control": True})
     ans = drv.run()
     for idx, got, case in pending:
         a = ans[idx]
